@@ -238,7 +238,6 @@ Section FailureAudience.
   Lemma backoff_loop_le n : forall maxttl ttl, ttl <= maxttl -> backoff_loop n maxttl ttl <= maxttl.
   Proof.
     induction n as [|n IH]; intros maxttl ttl Hle; cbn [backoff_loop]; [exact Hle|].
-    change failure_backoff_factor with 2. change failure_backoff_half with 2.
     destruct (ttl <? maxttl) eqn:E1; [|exact Hle].
     destruct (maxttl / 2 <? ttl) eqn:E2; [lia|].
     apply IH. apply N.ltb_ge in E2.
@@ -251,7 +250,6 @@ Section FailureAudience.
   Lemma backoff_loop_ge n : forall maxttl ttl, ttl <= backoff_loop n maxttl ttl \/ maxttl <= backoff_loop n maxttl ttl.
   Proof.
     induction n as [|n IH]; intros maxttl ttl; cbn [backoff_loop]; [left; lia|].
-    change failure_backoff_factor with 2. change failure_backoff_half with 2.
     destruct (ttl <? maxttl) eqn:E1; [|left; lia].
     destruct (maxttl / 2 <? ttl) eqn:E2; [right; lia|].
     destruct (IH maxttl (2 * ttl)) as [Hh|Hh]; [left; lia|right; exact Hh].
